@@ -132,7 +132,8 @@ def generate(seed: int, tier: str, phase: str) -> Dict[str, Any]:
         if k == "derive":
             op.update(src=r.randrange(16), T=_gen_T(r, allow_compile))
         elif k == "call":
-            op.update(j=r.randrange(16), k=r.randrange(3), bwd=r.random() < 0.75, gseed=r.randrange(4))
+            op.update(j=r.randrange(16), k=r.randrange(3), bwd=r.random() < 0.75, gseed=r.randrange(4),
+                      nograd=r.random() < 0.15)
         elif k == "call_original":
             op.update(k=r.randrange(3))
         elif k == "sync":
@@ -299,13 +300,13 @@ def execute(plan: Dict[str, Any]) -> Dict[str, Any]:
             refs[k] = (programs.Reference(spec, us=mode["us"], q=mode["q"], replace=mode["replace"]), mode)
         return refs[k]
 
-    def checked_call(m: Mod, k: int, bwd: bool, gseed: int, where: str) -> Dict[str, Any]:
+    def checked_call(m: Mod, k: int, bwd: bool, gseed: int, where: str, nograd: bool = False) -> Dict[str, Any]:
         ref, mode = reference_for(m)
         prf.take_log()
         wrapper = m.mod.__dict__.get("forward")
         c0 = (counters["frames"]["total"], counters["frames"]["ok"])
         try:
-            got = tw.run(m.mod, m.mod, tw.clone_inputs(inputs[k]), gseed, backward=bwd)
+            got = tw.run(m.mod, m.mod, tw.clone_inputs(inputs[k]), gseed, backward=bwd, no_grad=nograd)
         except Exception as e:
             raise Violation("I5_applied_once_in_order", "call_raised",
                             f"{chain_key(m.chain)} on {member}: {type(e).__name__}: {str(e)[:400]} {where}")
@@ -316,7 +317,8 @@ def execute(plan: Dict[str, Any]) -> Dict[str, Any]:
         la = sorted(prf.take_log())
         if m.mod.__dict__.get("forward") is not wrapper:
             raise Violation("I6_fault_recovery", "forward_wrapper_replaced", where)
-        want = tw.run(lambda *xs: ref.run(m.mod, xs), m.mod, tw.clone_inputs(inputs[k]), gseed, backward=bwd)
+        want = tw.run(lambda *xs: ref.run(m.mod, xs), m.mod, tw.clone_inputs(inputs[k]), gseed, backward=bwd,
+                      no_grad=nograd)
         lb = sorted(prf.take_log())
         # Inductor code generation and the tracking wrappers (recorded finding D13, property C18)
         # are value-preserving only to float rounding; everything else is compared bit for bit
@@ -334,8 +336,10 @@ def execute(plan: Dict[str, Any]) -> Dict[str, Any]:
             res["notes"].append("backend objects carry no recognisable names: backend-list check skipped")
         elif tags != exp:
             raise Violation("I5_applied_once_in_order", "backend_list", f"{tags} expected {exp} {where}")
-        key = (k, bwd, gseed)
+        key = (k, bwd, gseed, nograd)
         dg = tw.result_digest(got)
+        if nograd:
+            probe("calls_under_no_grad")
         if key in m.first and m.first[key] != dg:
             raise Violation("I3_repeatable", "result_changed_between_calls",
                             f"{chain_key(m.chain)} on {member} input {k} {where}")
@@ -351,7 +355,7 @@ def execute(plan: Dict[str, Any]) -> Dict[str, Any]:
                 continue
             c2 = (counters["frames"]["total"], counters["frames"]["ok"])
             try:
-                other = tw.run(o.mod, o.mod, tw.clone_inputs(inputs[k]), gseed, backward=bwd)
+                other = tw.run(o.mod, o.mod, tw.clone_inputs(inputs[k]), gseed, backward=bwd, no_grad=nograd)
             except Exception as e:
                 raise Violation("I5_applied_once_in_order", "call_raised",
                                 f"{chain_key(o.chain)}: {type(e).__name__}: {str(e)[:300]} {where}")
@@ -399,8 +403,8 @@ def execute(plan: Dict[str, Any]) -> Dict[str, Any]:
                 m = pick(op["j"])
                 if m is None:
                     continue
-                checked_call(m, op["k"], op["bwd"], op["gseed"], where)
-                tag = f"call:{chain_key(m.chain)}:{'bwd' if op['bwd'] else 'fwd'}"
+                checked_call(m, op["k"], op["bwd"], op["gseed"], where, nograd=bool(op.get("nograd")))
+                tag = f"call:{chain_key(m.chain)}:{'nograd' if op.get('nograd') else 'bwd' if op['bwd'] else 'fwd'}"
             elif k == "fleet":
                 # many transformed copies of one module class in one process, each called once
                 fleet: List[Mod] = []
